@@ -374,6 +374,15 @@ pub fn pool_of(n: usize) -> std::sync::Arc<ascent::rayon::ThreadPool> {
    m.entry(n).or_insert_with(|| Arc::new(ascent::rayon::ThreadPoolBuilder::new().num_threads(n).build().unwrap())).clone()
 }
 
+/// a user-defined aggregator that yields TWO values, the least and the greatest of the column (nothing on an empty group): a rule fires once per value
+pub fn minmax<'a>(inp: impl Iterator<Item = (&'a i64,)>) -> impl Iterator<Item = i64> {
+   let v: Vec<i64> = inp.map(|(x,)| *x).collect();
+   match (v.iter().min(), v.iter().max()) {
+      (Some(a), Some(b)) => vec![*a, *b].into_iter(),
+      _ => vec![].into_iter(),
+   }
+}
+
 /// a user-defined aggregator with TWO bound arguments: `agg it = argmin(cost, item) in offer(.., item, .., cost, ..)` yields the `item` of the
 /// lexicographically least `(cost, item)` pair (nothing on an empty group)
 pub fn argmin<'a>(inp: impl Iterator<Item = (&'a i64, &'a i64)>) -> impl Iterator<Item = i64> {
